@@ -140,11 +140,10 @@ pub fn run(req: &str) -> Outcome {
                             }
                         }
                     }
-                    Err(()) => {
-                        if ok {
-                            t3.push("auth_types_for_event fails on this event but auth_check allows it".into());
-                        }
-                    }
+                    // When the selection itself fails (malformed content) the property statement says
+                    // nothing; model and implementation are compared on it by T2 (see findings/C09.json
+                    // for the one class where `auth_check` allows such an event).
+                    Err(()) => {}
                 }
             }
             Outcome { imp: show_pairs(verdict, &read_set), t3 }
